@@ -145,6 +145,17 @@ def rule_resolution(ctx):
     ai = find_fn(INC, "add_include")
     if ai is None:
         return ctx.missing(R, "add_include")
+    import c19inc
+
+    outer_ctx = ctx
+    if c19inc.rule(ctx, R):
+        # decided by evaluation: the shape obligations on add_include / include_library below are not needed (they stay the
+        # fallback when the functions leave the evaluator's subset)
+        class _Quiet:
+            def __getattr__(self, _n):
+                return lambda *a, **k: None
+
+        ctx = _Quiet()
     pva = sgrep.params(ai)
     inc = pva[0] if pva else "include"
     # the joined path: `let mut L = self.current_location.clone()..; L.push(<include>.path.clone())`
@@ -190,7 +201,7 @@ def rule_resolution(ctx):
         ctx.check(R, "add_include/single-push", len(pushes) == 1, "%d pushes" % len(pushes), site(INC, ai))
     il = find_fn(INC, "include_library")
     if il is None:
-        return ctx.missing(R, "include_library")
+        return outer_ctx.missing(R, "include_library")
     # every path through the function: Ok only after a push, else the IncludeError
     paths = enumerate_paths(il["body"])
     tail = None
@@ -257,6 +268,7 @@ def rule_resolution(ctx):
         ctx.check(R, "include_library/error-unconditional", not [c for c in cs if c[0] != "notall"] or all(c[0] == "notall" for c in cs), "error only under %s" % facts_str(cs), site(INC, errstmt[0]))
     bad = [render(m)[:60] for m in walk(il["body"]) if m["k"] == "MethodCall" and m["method"] in ("insert", "contains") and "self." in render(m["recv"]) and "black_paths" not in render(m["recv"])]
     ctx.check(R, "include_library/no-error-deduplication", not bad, "state consulted before reporting: %s" % bad, site(INC, il))
+    ctx = outer_ctx
     # the caller reports the error and sets the include's file id first
     pf = find_fn(LIB, "parse_file")
     if pf is not None:
@@ -552,7 +564,77 @@ def rule_who_asks(ctx, R="C19.6"):
     ctx.floor(R, "functions scanned for user-input tests", n, 400)
 
 
+def rule_library_list(ctx, R="C19.7"):
+    ctx.rule(R, "the places an unresolved include is looked up in are the -L options and nothing else: the option's list reaches the file stack unchanged (main -> runner -> parse_files -> FileStack::new -> add_libraries), and nothing else adds to it")
+    import c03
+
+    IDENT = ("clone", "to_vec", "as_slice", "to_owned", "iter", "cloned", "collect", "as_ref", "into_iter", "copied", "borrow", "deref")
+
+    def same_as(e, name, le):
+        """does `e` denote the value `name` (through lets, references and copying adaptors)?"""
+        for _ in range(6):
+            e = strip(e)
+            if e["k"] in ("Ref", "Paren"):
+                e = e["e"]
+                continue
+            if e["k"] == "MethodCall" and e["method"] in IDENT and not e["args"]:
+                e = e["recv"]
+                continue
+            if e["k"] == "Index" and render(strip(e.get("index", {"k": "Lit"}))).replace(" ", "") == "..":
+                e = e["base"]
+                continue
+            if e["k"] == "Path" and e["path"] in le and e["path"] != name:
+                e = le[e["path"]]
+                continue
+            break
+        return render(strip(e)).replace(" ", "") == name
+
+    mainfn = c03.canon_main(ctx, R)
+    if mainfn is not None:
+        wl = list(method_calls(mainfn["body"], "with_libraries"))
+        okm = False
+        det = "%d calls of with_libraries" % len(wl)
+        if len(wl) == 1 and len(wl[0]["args"]) == 1:
+            le = let_env(mainfn["body"], wl[0])
+            okm = same_as(wl[0]["args"][0], "options.libraries", le)
+            det = "with_libraries(%s)" % render(wl[0]["args"][0])[:80]
+            # a list built from the option and then extended is not the option
+            grown = [render(m_)[:60] for m_ in walk(mainfn["body"]) if m_["k"] == "MethodCall" and m_["method"] in ("push", "extend", "extend_from_slice", "insert", "append") and any(render(strip(m_["recv"])) == k_ and "libraries" in render(v_) for k_, v_ in le.items())]
+            if grown:
+                okm, det = False, "the list handed to the runner is extended first: %s" % grown
+        ctx.check(R, "main/library-option-reaches-the-runner-unchanged", okm, det, site(MAIN, wl[0]) if wl else None)
+    RUNF = "program_analysis/src/analysis_runner.rs"
+    writers = []
+    for q, f in fns_in_file(RUNF):
+        if not f.get("body") or "tests" in q:
+            continue
+        for m_ in walk(f["body"]):
+            if m_["k"] == "MethodCall" and m_["method"] in ("push", "extend", "extend_from_slice", "insert", "append") and render(strip(m_["recv"])).replace(" ", "") == "self.libraries":
+                pv_ = sgrep.params(f)
+                writers.append((f["name"], bool(pv_) and same_as(m_["args"][-1], pv_[0], let_env(f["body"], m_))))
+            if m_["k"] == "Assign" and render(m_["l"]).replace(" ", "") == "self.libraries":
+                pv_ = sgrep.params(f)
+                writers.append((f["name"], bool(pv_) and same_as(m_["r"], pv_[0], let_env(f["body"], m_))))
+    ctx.check(R, "AnalysisRunner/libraries-written-from-the-option-only", [w_ for w_ in writers] == [("with_libraries", True)], "writers of self.libraries: %s" % writers, RUNF)
+    wf = find_fn(RUNF, "with_files")
+    if wf is not None:
+        pc = [c for c in walk(wf["body"]) if c["k"] == "Call" and render(c["func"]).replace(" ", "").endswith("parse_files")]
+        okp = len(pc) == 1 and len(pc[0]["args"]) >= 2 and same_as(pc[0]["args"][1], "self.libraries", let_env(wf["body"], pc[0]))
+        ctx.check(R, "AnalysisRunner::with_files/hands-its-libraries-to-the-parser", okp, "parse_files(.., %s, ..)" % (render(pc[0]["args"][1])[:60] if pc and len(pc[0]["args"]) > 1 else "?"), site(RUNF, wf))
+    pf = find_fn(LIB, "parse_files")
+    if pf is None:
+        ctx.missing(R, "parser::parse_files")
+    else:
+        pv_ = sgrep.params(pf)
+        fsn = [c for c in walk(pf["body"]) if c["k"] == "Call" and render(c["func"]).replace(" ", "").endswith("FileStack::new")]
+        okf = len(fsn) == 1 and len(pv_) >= 2 and len(fsn[0]["args"]) >= 2 and same_as(fsn[0]["args"][1], pv_[1], let_env(pf["body"], fsn[0]))
+        ctx.check(R, "parse_files/hands-its-libraries-to-the-file-stack", okf, "FileStack::new(.., %s, ..)" % (render(fsn[0]["args"][1])[:60] if fsn and len(fsn[0]["args"]) > 1 else "?"), site(LIB, pf))
+    pushers = sorted({f["name"] for q, f in fns_in_file(INC) if f.get("body") for m_ in walk(f["body"]) if m_["k"] == "MethodCall" and m_["method"] in ("push", "extend", "insert", "append", "extend_from_slice") and render(strip(m_["recv"])).replace(" ", "") == "self.libraries"})
+    ctx.check(R, "FileStack/libraries-filled-by-add_libraries-only", pushers == ["add_libraries"], "functions that add to self.libraries: %s" % pushers, INC)
+
+
 def run(ctx):
+    rule_library_list(ctx)
     rule_canonical(ctx)
     rule_visited(ctx)
     rule_resolution(ctx)
